@@ -249,6 +249,12 @@ func ruleMergeOrder(c *eng.Ctx) {
 						forward = true
 					}
 				}
+				// `for rest := tables; len(rest) > 0; rest = rest[1:]` visits the tables front to back as well
+				if ia, ok := in.(*ssa.IndexAddr); ok {
+					if base, isCur := eng.ShrinkingCursor(ia); isCur && base == ssa.Value(fn.Params[0]) {
+						forward = true
+					}
+				}
 			})
 			// no data-dependent guard: no dominating If whose condition reads an entry field or looks up the merged map
 			guarded := ""
